@@ -1,27 +1,41 @@
 """C08 - the indexer reports only genuine grains and finds all of them on ideal data.
 
-specs: Indexer.tla (control state of find / scorethem / score_all_pairs and the pass loop of index / do_index on abstract
-       instances: closest-angle and all-candidates hit lists, strict-then-loose passes, rings_to_use, n; invariants +
-       liveness + completeness), TraceIndexer.tla (trace validation of recorded real runs).
+specs: Indexer.tla (control state of find / scorethem / score_all_pairs, the pass loop of index / do_index and
+       fight_over_peaks - what saveindexing runs - between pair loops, on abstract instances: closest-angle and
+       all-candidates hit lists, strict-then-loose passes, rings_to_use, n, saves anywhere between ring pairs;
+       invariants + liveness + completeness + the competing-owner rule after a save; the variant whose stored errors
+       survive a call must show the duplicate), TraceIndexer.tla (trace validation of recorded real runs).
 Mode C: a recording subclass of indexing.indexer logs every pair loop, every find(), every hit popped by scorethem with
        ALL scores taken for it (and the matrices scored), the getind result (and the matrix it was asked about), the
-       observed outcome and the ga / ubis / scores state; TLC replays each event against the specification's decision
-       rule with the minimum of the pass in force taken from the harness's plan.
+       observed outcome, every fight_over_peaks (ga / gas afterwards, the matrices held) and the ga / ubis / scores
+       state; TLC replays each event against the specification's decision rule with the minimum of the pass in force
+       taken from the harness's plan.
 Routes: indexer(...).score_all_pairs() (also n / rmulmax / rings_to_use, cosine_tol < 0, repeated with other minpks /
-       hkl_tol as index() does), indexing.index(colfile), indexing.do_index(cf, ...), indexer_from_colfile.
+       hkl_tol as index() does), indexing.index(colfile), indexing.do_index(cf, ...), indexer_from_colfile,
+       indexer_from_colfile_and_ucell, and sessions on one indexer: indexer() + readgvfile(.gve) with the parameters set
+       as attributes or through the parameter object (GUI), pair loops with decreasing minpks and saveindexing /
+       saveubis / fight_over_peaks between them, assigntorings / find / scorethem by hand, index() followed by more.
 Independent judgement (c08_lib.py: own reciprocal metric, brute-force hkl list with own absences, own hkl-error count;
        nothing from unitcell.gethkls / uc.B / indexing.calc_drlv2):
        * data: g = U B0 h for the harness's own B0 and hkl list; cells scaled from ~1 A to ~1e3 A (the model is
-         covariant under a change of length unit when ds_tol is scaled with it: instance family, not a spec constant)
+         covariant under a change of length unit when ds_tol is scaled with it: instance family, not a spec constant);
+         17 pinned lattices and cells DRAWN inside each of the seven classes (no pseudo-symmetry: own count of the
+         lattice's exact and approximate symmetries)
        * every logged score and getind mask is recomputed; every trial matrix must have the supplied cell exactly
        * every find() hit list is compared with the harness's own angle matching (own hkl families of the two rings)
+       * every fight_over_peaks: own table of which accepted matrices hold each peak within hkl_tol, ranked by own error;
+         TraceIndexer applies the competing-owner rule to it
        * final state: every reported UBI indexes > the minimum of its pass within the hkl_tol of its pass (own count on
          the supplied g-vectors), det > 0, no two the same lattice, and its cell parameters (all six, as the metric
          L^-1 G L^-T - I) differ from the supplied cell by no more than ONE least-squares step on peaks within hkl_tol
          can move them: tol sqrt(N / lambda_min(sum h h^T)) (see c08_lib)
+       * noise-free data without spurious peaks, every route / option / history: every reported orientation IS one of the
+         generating lattices (up to an integer unimodular matrix) - a matrix that indexes one reciprocal-lattice plane of
+         a real grain is not a genuine grain; exercised in every search mode x every lattice with a minimum just above
+         the two reciprocal rows a matrix from unrelated peaks indexes and below the population of a plane
        * noise-free data: every generating grain that has more than the minimum of some pass is reported exactly once up
-         to lattice symmetry (when ds_tol was scaled with the cell, the pair loop is not cut short by n and the permitted
-         rings hold two non-collinear reflections).
+         to lattice symmetry at the end of the history (when ds_tol was scaled with the cell, the pair loop is not cut
+         short by n and the permitted rings hold two non-collinear reflections).
 """
 import os, json, io, contextlib, time, logging, math, warnings
 from concurrent.futures import ThreadPoolExecutor
@@ -31,6 +45,7 @@ import c08_lib as L
 
 PROP = "C08"
 DUP_ID = "C08-duplicate-orientation-noisy"
+REF_ID = "C08-refined-orientation-below-minpks"      # proposed entry (see run): not listed -> such a case is a violation
 
 # name: (cell, centring, dsmax at scale 1)
 CELLS = {
@@ -134,6 +149,15 @@ def make_recorder(indexing):
             self._flush()
             self._emit({"t": "end", "left": len(self.hits) if self.hits is not None else 0})
 
+        def fight_over_peaks(self):
+            # saveindexing calls this first; the competing-owner rule is judged from the matrices held at this moment
+            self._flush()
+            Base.fight_over_peaks(self)
+            ga = np.asarray(self.ga)
+            self._emit({"t": "fight", "fit": None, "amb": None, "ga": [int(x) for x in ga.ravel()],
+                        "gas": [int(x) for x in np.asarray(self.gas).ravel()]},
+                       {"ubis": [np.array(u, float) for u in self.ubis], "tol": float(self.hkl_tol)})
+
         def score(self, UBI, tol=None):
             n = Base.score(self, UBI, tol)
             if self._cur is not None:
@@ -192,6 +216,7 @@ def simulate(rng, cellname, scale, ngrains, noise=0.0, nspurious=0, dropout=Fals
     cell, cen, dsmax = scaled_cell(cellname, scale)
     dsmax *= dscut
     hkls, _ = L.brute_hkls(cell, cen, dsmax)
+    rowmax = L.row_population(hkls)
     hkls = hkls.astype(float)
     B0 = L.recip_B(cell)
     ubis, gv, owner = [], [], []
@@ -218,7 +243,7 @@ def simulate(rng, cellname, scale, ngrains, noise=0.0, nspurious=0, dropout=Fals
         owner += [-1] * nspurious
     perm = rng.permutation(len(gv))
     return {"cell": cell, "cen": cen, "dsmax": dsmax, "ubis": ubis, "gv": np.ascontiguousarray(gv[perm]),
-            "owner": np.array(owner)[perm], "nper": len(hkls)}
+            "owner": np.array(owner)[perm], "nper": len(hkls), "rowmax": rowmax}
 
 
 def same_lattice(ubi1, ubi2, tol=0.05):
@@ -251,10 +276,56 @@ def default_pars(sim, noise, scale, rng):
                 max_grains=[100, 100, 2][int(rng.integers(0, 3))] if noise else 100)
 
 
+def run_history(ind, history, plan, sap, repeat, cid, k0=0):
+    """the operations of one session on one indexer (see run_case); k0 = settings already used (index() ran them)"""
+    k = k0
+    nfile = 0
+    for op in history:
+        if op[0] == "pass":
+            ps = plan[k]
+            k += 1
+            ind.minpks, ind.hkl_tol = ps["minpks"], ps["tol"]
+            ind.rec_pass(k)
+            for _ in range(repeat):
+                ind.score_all_pairs(**sap)
+        elif op[0] == "sap":                       # one more pair loop at the settings in force
+            ind.rec_pass(max(k, 1))
+            ind.score_all_pairs(**sap)
+        elif op[0] in ("save", "saveubis"):
+            nfile += 1
+            path = os.path.join(common.scratch(), "c08_%s_%d.%s" % (cid, nfile, "idx" if op[0] == "save" else "ubi"))
+            if op[0] == "save":
+                ind.saveindexing(path)
+            else:
+                ind.saveubis(path)
+            os.remove(path)
+        elif op[0] == "fight":
+            ind.fight_over_peaks()
+        elif op[0] == "pair":
+            ind.rec_pass(max(k, 1))               # a new stretch of the record: no pair loop is running
+            ind.assigntorings()
+            withpk = [r for r in range(len(ind.unitcell.ringds)) if (np.asarray(ind.ra) == r).sum() > 0]
+            if op[1] < len(withpk) and op[2] < len(withpk):
+                ind.ring_1, ind.ring_2 = withpk[op[1]], withpk[op[2]]
+                ind.find()
+                ind.scorethem()
+        else:
+            raise common.MachineryError("unknown operation %r" % (op,))
+
+
 def run_case(chk, ctx, rng, sp, cid):
     """sp: cell, scale, ng, noise, nspur, route (sap | index | do_index | api), pars (overrides), passes = list of
     (minpks or None, hkl_tol or None) settings applied one after the other on the same indexer, boundary, dropout,
-    sap = dict(n, rmulmax, rings_to_use), complete (None = decide from the data), wavelength, dscut"""
+    sap = dict(n, rmulmax, rings_to_use), complete (None = decide from the data), wavelength, dscut,
+    minpks_rows (minimum = 2 * (most reflections a grain has on one reciprocal-lattice row) + 2, also "rows" as a fraction in
+    pass_fracs: just above what a matrix built from two unrelated peaks indexes - the rows of its two peaks - and below
+    the population of a reciprocal-lattice plane, which is what the true orientation turned about g1 x g2 indexes),
+    pick_rings (rings_to_use = that many of the first eight rings, drawn), route gve (a .gve file read by readgvfile into
+    an indexer built without arguments, parameters set as attributes: the GUI / script session),
+    history = operations on the one indexer, in order: ("pass",) the next (minpks, hkl_tol) setting and its pair loop(s),
+    ("save",) saveindexing (route gve), ("saveubis",), ("fight",) fight_over_peaks, ("pair", a, b) assigntorings / find /
+    scorethem by hand on the a-th and b-th ring holding peaks (as the GUI does), at the settings of the last pass;
+    after = such operations on the indexer index() returned"""
     indexing = ctx["indexing"]
     RecIndexer = ctx["RecIndexer"]
     stats = ctx["stats"]
@@ -275,12 +346,20 @@ def run_case(chk, ctx, rng, sp, cid):
         p["minpks"] = counts[nmin_grain]
     if sp.get("minpks_below_poorest"):
         p["minpks"] = min(counts) - 1
+    lowmin = 2 * sim["rowmax"] + 2
+    if sp.get("minpks_rows"):
+        p["minpks"] = lowmin
     wavelength = sp.get("wavelength", 0.3)
     passes_in = sp.get("passes") or [(None, None)]
     if sp.get("pass_fracs"):            # strict then loose: minimum as a fraction of the reflections per grain
-        passes_in = [(max(3, int(f * sim["nper"])), t) for f, t in sp["pass_fracs"]]
+        passes_in = [(lowmin if f == "rows" else max(3, int(f * sim["nper"])), t) for f, t in sp["pass_fracs"]]
     plan = [{"minpks": p["minpks"] if m is None else m, "tol": p["hkl_tol"] if t is None else t} for (m, t) in passes_in]
     sap = dict(sp.get("sap") or {})
+    if sp.get("pick_rings"):
+        sap["rings_to_use"] = sorted(int(r) for r in rng.choice(8, size=int(sp["pick_rings"]), replace=False))
+    history = [tuple(op) for op in (sp.get("history") or [("pass",)] * len(plan))]
+    if sum(1 for op in history if op[0] == "pass") != len(plan):
+        raise common.MachineryError("history of case %s does not hold one pass per setting" % cid)
     meta = {"case": cid, "spec": sp, "cell": name, "scale": scale, "ngrains": ng, "noise": noise, "nspurious": nspur, "pars": p,
             "route": route, "seed": common.seed(), "boundary": boundary}
     err = None
@@ -291,22 +370,35 @@ def run_case(chk, ctx, rng, sp, cid):
         warnings.simplefilter("ignore")
         RecIndexer._cfg = {}
         try:
-            if route in ("sap", "api"):
+            if route in ("sap", "api", "gve"):
                 if route == "sap":
                     uc = ctx["unitcell"].unitcell(cell, cen)
                     ind = RecIndexer(unitcell=uc, gv=gv, wavelength=wavelength, **p)
+                elif route == "gve":
+                    path = os.path.join(common.scratch(), "c08_%s.gve" % cid)
+                    L.write_gve(path, cell, cen, wavelength, gv)
+                    ind = RecIndexer()
+                    ind.readgvfile(path, quiet=True)
+                    if sp.get("gui_pars"):                   # as the GUI does: through the parameter object
+                        ind.updateparameters()
+                        ind.parameterobj.set_parameters(dict(p))
+                        ind.loadpars()
+                    else:                                    # as scripts do
+                        for key, val in p.items():
+                            setattr(ind, key, val)
+                    os.remove(path)
                 else:
                     old = indexing.indexer
                     indexing.indexer = RecIndexer
                     try:
-                        ind = indexing.indexer_from_colfile(make_colfile(ctx, sim, wavelength), **p)
+                        if sp.get("ucell"):
+                            ind = indexing.indexer_from_colfile_and_ucell(make_colfile(ctx, sim, wavelength),
+                                                                          ctx["unitcell"].unitcell(cell, cen), **p)
+                        else:
+                            ind = indexing.indexer_from_colfile(make_colfile(ctx, sim, wavelength), **p)
                     finally:
                         indexing.indexer = old
-                for k, ps in enumerate(plan):
-                    ind.minpks, ind.hkl_tol = ps["minpks"], ps["tol"]
-                    ind.rec_pass(k + 1)
-                    for _ in range(sp.get("repeat", 1)):
-                        ind.score_all_pairs(**sap)
+                run_history(ind, history, plan, sap, sp.get("repeat", 1), cid)
             elif route == "index":
                 RecIndexer._cfg = {"auto_pass": True}
                 old = indexing.indexer
@@ -317,6 +409,9 @@ def run_case(chk, ctx, rng, sp, cid):
                                          rmulmax=sap.get("rmulmax"), rings_to_use=sap.get("rings_to_use"), maxpairs=sap.get("n"))
                 finally:
                     indexing.indexer = old
+                if sp.get("after") and isinstance(ind, RecIndexer):
+                    RecIndexer._cfg = {}
+                    run_history(ind, [tuple(op) for op in sp["after"]], plan, sap, 1, cid, k0=len(plan))
                 p["uniqueness"] = 0.5                       # index() leaves the constructor's default
             elif route == "do_index":
                 dox = sp["do_index"]
@@ -422,6 +517,9 @@ def run_case(chk, ctx, rng, sp, cid):
     k_pass = 0
     acc_pass = []                                        # pass of each accepted grain
     bound_of = []                                        # what one refinement step may have done to its cell
+    trial_lo = []                                        # own count of the trial matrix each reported one was refined from
+    nfights = 0
+    fights_at = []                                       # grains accepted when each fight_over_peaks ran
     nviol0 = len(chk.violations)
 
     def bad(what, extra=None):
@@ -459,6 +557,32 @@ def run_case(chk, ctx, rng, sp, cid):
                 if extra_h or missing:
                     bad("find(%d, %d): %d hits no allowed angle explains (first %s), %d expected hits missing (first %s)" % (
                         e["r1"], e["r2"], len(extra_h), extra_h[:1], len(missing), missing[:1]))
+        elif e["t"] == "fight":
+            # the competing-owner table by own arithmetic on the matrices the indexer held; TraceIndexer applies the rule
+            ps = plan[min(k_pass, len(plan) - 1)]
+            if abs(a["tol"] - ps["tol"]) > 1e-12:
+                bad("fight_over_peaks ran at hkl_tol %r in a pass that requested %r" % (a["tol"], ps["tol"]))
+            if len(a["ubis"]) != nub:
+                bad("fight_over_peaks saw %d orientations, %d were accepted so far" % (len(a["ubis"]), nub))
+            fit, amb, win = L.fight_table(a["ubis"], gvi, ps["tol"])
+            e["fit"], e["amb"] = fit, amb
+            obs = np.array(e["ga"]) if len(e["ga"]) == len(gvi) else win
+            sure = np.ones(len(gvi), bool)
+            if amb:
+                sure[np.array(amb) - 1] = False
+            wrong = sure & (obs != win)
+            if wrong.any():
+                bad("fight_over_peaks (call %d on this indexer, %d grains): %d peaks are not with the accepted grain that fits them best, "
+                    "%d of them left without a grain (first peak %d: grain %d, by the rule %d)" % (
+                        nfights + 1, nub, int(wrong.sum()), int((wrong & (obs == -1)).sum()), int(np.nonzero(wrong)[0][0]),
+                        int(obs[np.nonzero(wrong)[0][0]]), int(win[np.nonzero(wrong)[0][0]])))
+            ga = obs.copy()                                  # what the code holds (TraceIndexer judges the same discrepancy)
+            stats["fights_judged"] += 1
+            stats["fight_peaks_contested"] += sum(1 for f in fit if len(f) > 1)
+            if nfights and nub:
+                stats["fights_repeated_with_grains"] += 1
+            nfights += 1
+            fights_at.append(nub)
         elif e["t"] == "pop" and e["kind"] != "skip":
             ps = plan[min(k_pass, len(plan) - 1)]
             tol = ps["tol"]
@@ -498,6 +622,7 @@ def run_case(chk, ctx, rng, sp, cid):
                 acc_pass.append(min(k_pass, len(plan) - 1))
                 cands = [U for U, n in zip(a["ubis"], e["sc"]) if n == e["score"]] or a["ubis"]
                 bound_of.append(max(L.refine_bound(U, gvi[onring], tol)[1] for U in cands))
+                trial_lo.append(max(L.count_range(L.hkl_err2(U, gvi), tol)[0] for U in cands))
                 if k_pass > 0:
                     stats["accepted_in_later_pass"] += 1
     tolmax = max(ps["tol"] for ps in plan)
@@ -508,8 +633,14 @@ def run_case(chk, ctx, rng, sp, cid):
         lo, hi = L.count_range(L.hkl_err2(u, gv_supplied), ps["tol"])
         need = ps.get("_exact", ps["minpks"])
         if not hi > need:
-            bad("reported orientation %d indexes %d of the supplied g-vectors within hkl_tol %g, minpks = %g" % (k, hi, ps["tol"], need),
-                {"ubi": u.tolist()})
+            what = "reported orientation %d indexes %d of the supplied g-vectors within hkl_tol %g, minpks = %g" % (k, hi, ps["tol"], need)
+            if noise > 0 and trial_lo[k] > need:
+                # the trial matrix did index more than the minimum (own recount); the least-squares step on noisy peaks lost
+                # some and the refined matrix was stored without being scored again: judged after trace validation (REF_ID)
+                meta.setdefault("_refined_low", []).append((k, what + " (the trial matrix it was refined from indexes %d) [%s x%g, route %s]" % (
+                    trial_lo[k], name, scale, route), u.tolist()))
+            else:
+                bad(what, {"ubi": u.tolist()})
         if np.linalg.det(u) <= 0:
             bad("reported orientation %d is left handed" % k, {"ubi": u.tolist()})
         d = L.cell_distortion(u, cell)
@@ -528,6 +659,20 @@ def run_case(chk, ctx, rng, sp, cid):
                 # judged after trace validation (see DUP_ID): the recorded finding explains it only for noisy data
                 tl = max(plan[acc_pass[x]]["tol"] if x < len(acc_pass) else tolmax for x in (a_, b_))
                 meta.setdefault("_dups", []).append((a_, b_, [ind.ubis[a_].tolist(), ind.ubis[b_].tolist()], tl))
+    # ---- ideal data: every reported orientation is one of the generating lattices (a matrix that indexes one reciprocal
+    # plane of a real grain - more than a low minimum - is not a genuine grain); whatever the route / options / history
+    if noise == 0 and nspur == 0:
+        stats["ideal_runs"] += 1
+        for k, u in enumerate(ind.ubis):
+            stats["genuine_judged"] += 1
+            if not any(same_lattice(u, t) for t in sim["ubis"]):
+                n_own = L.count_range(L.hkl_err2(u, gv_supplied), tolmax)[1]
+                bad("ideal data: reported orientation %d is none of the %d generating grains (it indexes %d of the %d supplied "
+                    "g-vectors, a grain holds %s; minpks %s, cosine_tol %g)" % (k, ng, n_own, len(gv_supplied), sorted(set(counts)),
+                                                                               [ps["minpks"] for ps in plan], p["cosine_tol"]),
+                    {"ubi": u.tolist(), "true_ubis": [t.tolist() for t in sim["ubis"]]})
+        if fights_at and any(n > 0 for n in fights_at[1:]) and len(ind.ubis) > fights_at[-1]:
+            stats["grains_after_second_fight"] += len(ind.ubis) - fights_at[-1]
     # ---- completeness on noise-free data
     complete = sp.get("complete")
     if complete is None:
@@ -535,7 +680,7 @@ def run_case(chk, ctx, rng, sp, cid):
         loops = [e["pairs"] for e in ev if e["t"] == "sap"]
         gen_ok = bool(loops) and all(L.noncollinear_pair(members, sorted(set(r for pr in pairs for r in pr))) for pairs in loops)
         complete = noise == 0 and nspur == 0 and p["max_grains"] >= ng and sap.get("n") is None and gen_ok
-    if complete and name in OUTSIDE_QUANTIFIER:
+    if complete and name.split("~")[0] in OUTSIDE_QUANTIFIER:
         complete = "observe"
     meta["completeness_judged"] = bool(complete)
     if complete:
@@ -581,6 +726,11 @@ def run_case(chk, ctx, rng, sp, cid):
     stats["class_" + name] += 1
     if not separated:
         stats["rings_not_separated"] += 1
+    if sp.get("minpks_rows"):
+        stats["lowmin_runs_%s" % ("all" if p["cosine_tol"] < 0 else "closest")] += 1
+        stats["lowmin_class_%s_%s" % (name.split("~")[0], "all" if p["cosine_tol"] < 0 else "closest")] += 1
+    if nfights:
+        stats["runs_with_fights"] += 1
     if p["cosine_tol"] < 0:
         stats["allmode_runs"] += 1
         stats["allmode_hits"] += sum(len(e["hits"]) for e in ev if e["t"] == "find")
@@ -624,8 +774,20 @@ def validate(chk, recs, tag, nsplit=1):
 
 
 # ------------------------------------------------------------------------------------------------ plans
+CLASSES = ["cubic", "hexagonal", "tetragonal", "orthorhombic", "monoclinic", "rhombohedral", "triclinic"]
+
+
+def drawn_cell(rng, cls):
+    """a cell drawn inside the class, registered under <class>~<n>"""
+    name = "%s~%d" % (cls, sum(1 for k in CELLS if k.startswith(cls + "~")))
+    CELLS[name] = L.random_cell(rng, cls)
+    return name
+
+
 def make_plan(tier, rng):
     plan = []
+    for k in [k for k in CELLS if "~" in k]:
+        del CELLS[k]
 
     def sc():
         return SCALES[int(rng.integers(0, len(SCALES)))]
@@ -672,6 +834,47 @@ def make_plan(tier, rng):
         plan += [dict(cell="cubicP", ng=2, pars=dict(cosine_tol=-0.002), dscut=0.8),
                  dict(cell="monoclinic", ng=2, pars=dict(cosine_tol=-0.002), scale=0.25),
                  dict(cell="hexagonal", ng=2, noise=0.002, nspur=10, pars=dict(cosine_tol=-0.005), dscut=0.8, scale=250.0)]
+        # every search mode x every lattice class with a minimum below the population of a reciprocal-lattice plane (a first
+        # guess that is the true orientation turned about g1 x g2 passes it and has to lose against the better assignment
+        # of the same angle) and above the two rows a matrix from unrelated peaks indexes: all ring pairs, and a few drawn
+        # rings (every kind of ring pair gets to seed)
+        for nm in BASE + MORE:
+            plan.append(dict(cell=nm, ng=int(rng.integers(1, 4)), pars=dict(cosine_tol=-0.002), minpks_rows=True, scale=sc()))
+            plan.append(dict(cell=nm, ng=int(rng.integers(2, 4)), pars=dict(cosine_tol=-0.002, uniqueness=[0.5, 0.5, 0.8][int(rng.integers(0, 3))]),
+                             minpks_rows=True, pick_rings=int(rng.integers(2, 4))))
+            plan.append(dict(cell=nm, ng=int(rng.integers(2, 4)), minpks_rows=True, scale=sc(),
+                             **(dict(pick_rings=3, complete=False) if rng.random() < 0.5 else {})))
+        # ... and cells drawn inside each class (which ring pairs come first depends on the axial ratios)
+        for cls in CLASSES:
+            plan.append(dict(cell=drawn_cell(rng, cls), ng=int(rng.integers(1, 4)), pars=dict(cosine_tol=-0.002), minpks_rows=True))
+            plan.append(dict(cell=drawn_cell(rng, cls), ng=int(rng.integers(2, 4)), minpks_rows=True,
+                             **(dict(pars=dict(cosine_tol=-0.002), pick_rings=3) if rng.random() < 0.5 else {})))
+        plan += [dict(cell="monoclinicB", ng=2, route="index", pass_fracs=[(0.5, 0.01), ("rows", 0.02)], pars=dict(cosine_tol=-0.002),
+                      sap=dict(rmulmax=4)),
+                 dict(cell=drawn_cell(rng, "triclinic"), ng=2, route="do_index", do_index=dict(hkl_tols=(0.01, 0.02), fracs=(0.5, 0.2),
+                      forgen=(0, 1, 2, 3), foridx=None), pars=dict(cosine_tol=-0.002, max_grains=1000)),
+                 dict(cell=drawn_cell(rng, "monoclinic"), ng=3, route="api", ucell=True, pars=dict(cosine_tol=-0.003), minpks_rows=True, scale=10.0)]
+        # sessions on one indexer: pair loops with saveindexing / fight_over_peaks / saveubis between them (the .gve route
+        # of the GUI and of scripts: readgvfile, decreasing minpks), searching by hand between saves, index() then more
+        plan += [dict(cell="hexagonal", ng=4, dropout=True, route="gve", pass_fracs=[(0.8, 0.02), (0.3, 0.02), (0.2, 0.02)],
+                      history=[("pass",), ("save",), ("pass",), ("save",), ("pass",)], pars=dict(ds_tol=0.005), gui_pars=True),
+                 dict(cell="cubicF", ng=3, route="gve", pass_fracs=[(0.5, 0.02), (0.3, 0.03)], scale=sc(),
+                      history=[("pass",), ("saveubis",), ("save",), ("save",), ("sap",), ("pass",), ("fight",), ("sap",)]),
+                 dict(cell="monoclinic", ng=3, dropout=True, pass_fracs=[(0.9, 0.01), (0.4, 0.02)], scale=sc(),
+                      history=[("pass",), ("fight",), ("pass",), ("fight",), ("sap",)]),
+                 dict(cell="tetragonal", ng=3, route="gve", pass_fracs=[(0.5, 0.02)], wavelength=0.15, gui_pars=True,
+                      history=[("pass",), ("save",), ("pair", 0, 1), ("save",), ("pair", 1, 2), ("pair", 0, 2), ("fight",), ("sap",)]),
+                 dict(cell="orthorhombic", ng=3, noise=0.001, nspur=30, route="gve", pass_fracs=[(0.7, 0.03), (0.4, 0.05), (0.3, 0.05)],
+                      history=[("pass",), ("save",), ("pass",), ("save",), ("pass",), ("save",), ("sap",)]),
+                 dict(cell="cubicI", ng=3, dropout=True, route="index", pass_fracs=[(0.93, 0.01), (0.5, 0.02)], sap=dict(rmulmax=12),
+                      after=[("fight",), ("fight",), ("sap",)], complete=True),
+                 dict(cell=drawn_cell(rng, "monoclinic"), ng=2, route="api", pass_fracs=[(0.5, 0.02), ("rows", 0.02)], pars=dict(cosine_tol=-0.002),
+                      history=[("pass",), ("fight",), ("fight",), ("pass",), ("fight",), ("sap",)]),
+                 dict(cell="rhombohedral", ng=2, route="gve", pass_fracs=[(0.4, 0.02)], scale=0.25, repeat=2,
+                      history=[("fight",), ("pass",), ("save",), ("saveubis",), ("save",), ("sap",)]),
+                 # a wide tolerance: grains share peaks, fight_over_peaks has owners to choose between
+                 dict(cell="tetragonal", ng=4, pars=dict(hkl_tol=0.1, cosine_tol=0.02), sep_tol=0.1, scale=sc(),
+                      history=[("pass",), ("fight",), ("fight",), ("sap",)])]
         # tolerance grid
         plan += [dict(cell="cubicF", ng=3, pars=dict(hkl_tol=0.01, cosine_tol=0.0005)),
                  dict(cell="tetragonal", ng=3, pars=dict(hkl_tol=0.1, cosine_tol=0.02), sep_tol=0.1, scale=sc()),
@@ -700,6 +903,41 @@ def make_plan(tier, rng):
                      dict(cell=nm, ng=2, pars=dict(cosine_tol=-0.002), dscut=0.8, scale=sc()),
                      dict(cell=nm, ng=3, pars=dict(hkl_tol=0.01, cosine_tol=0.0005), scale=sc()),
                      dict(cell=nm, ng=3, pars=dict(uniqueness=0.9), scale=sc())]
+        # minimum below the population of one reciprocal-lattice plane: every mode x every lattice, all pairs / drawn rings
+        for nm in BASE + MORE:
+            plan += [dict(cell=nm, ng=int(rng.integers(1, 5)), pars=dict(cosine_tol=-0.002), minpks_rows=True, scale=sc()),
+                     dict(cell=nm, ng=int(rng.integers(2, 4)), pars=dict(cosine_tol=-0.002), minpks_rows=True, pick_rings=2),
+                     dict(cell=nm, ng=int(rng.integers(2, 4)), pars=dict(cosine_tol=-0.002), minpks_rows=True, pick_rings=2),
+                     dict(cell=nm, ng=int(rng.integers(2, 4)), pars=dict(cosine_tol=-0.004, uniqueness=0.8), minpks_rows=True, pick_rings=3, scale=sc()),
+                     dict(cell=nm, ng=int(rng.integers(2, 5)), minpks_rows=True, scale=sc()),
+                     dict(cell=nm, ng=int(rng.integers(2, 4)), minpks_rows=True, pick_rings=3, complete=False),
+                     dict(cell=nm, ng=2, route="index", pass_fracs=[(0.5, 0.01), ("rows", 0.02)], pars=dict(cosine_tol=-0.002), sap=dict(rmulmax=12)),
+                     dict(cell=nm, ng=2, route="do_index", do_index=dict(hkl_tols=(0.01, 0.02), fracs=(0.5, 0.2), forgen=(0, 1, 2, 3), foridx=None),
+                          pars=dict(cosine_tol=-0.002, max_grains=1000)),
+                     dict(cell=nm, ng=2, route="api", ucell=True, pars=dict(cosine_tol=-0.003), minpks_rows=True, scale=sc())]
+        for cls in CLASSES:
+            for _ in range(5):
+                plan += [dict(cell=drawn_cell(rng, cls), ng=int(rng.integers(1, 4)), pars=dict(cosine_tol=-0.002), minpks_rows=True),
+                         dict(cell=drawn_cell(rng, cls), ng=int(rng.integers(2, 4)), pars=dict(cosine_tol=-0.002), minpks_rows=True, pick_rings=2),
+                         dict(cell=drawn_cell(rng, cls), ng=int(rng.integers(2, 4)), minpks_rows=True),
+                         dict(cell=drawn_cell(rng, cls), ng=int(rng.integers(2, 4)), scale=sc())]
+        # sessions on one indexer with saveindexing / fight_over_peaks / saveubis between the pair loops
+        for nm in BASE + MORE:
+            plan += [dict(cell=nm, ng=4, dropout=True, route="gve", pass_fracs=[(0.8, 0.02), (0.3, 0.02), (0.2, 0.02)], gui_pars=bool(rng.integers(0, 2)),
+                          history=[("pass",), ("save",), ("pass",), ("save",), ("pass",)]),
+                     dict(cell=nm, ng=3, dropout=True, pass_fracs=[(0.9, 0.01), (0.4, 0.02)], scale=sc(),
+                          history=[("pass",), ("fight",), ("pass",), ("fight",), ("sap",)]),
+                     dict(cell=nm, ng=3, route="gve", pass_fracs=[(0.5, 0.02)], scale=sc(),
+                          history=[("pass",), ("saveubis",), ("save",), ("pair", 0, 1), ("save",), ("pair", 1, 2), ("pair", 0, 2), ("fight",), ("sap",)]),
+                     dict(cell=nm, ng=3, dropout=True, route="index", pass_fracs=[(0.93, 0.01), (0.5, 0.02)], sap=dict(rmulmax=12),
+                          after=[("fight",), ("fight",), ("sap",)])]
+        for nm in BASE:
+            plan += [dict(cell=nm, ng=3, noise=0.001, nspur=30, route="gve", pass_fracs=[(0.7, 0.03), (0.4, 0.05), (0.3, 0.05)],
+                          history=[("pass",), ("save",), ("pass",), ("save",), ("pass",), ("save",), ("sap",)]),
+                     dict(cell=nm, ng=4, pars=dict(hkl_tol=0.1, cosine_tol=0.02), sep_tol=0.1, scale=sc(),
+                          history=[("pass",), ("fight",), ("fight",), ("sap",)]),
+                     dict(cell=nm, ng=2, route="api", pass_fracs=[(0.5, 0.02), ("rows", 0.02)], pars=dict(cosine_tol=-0.002),
+                          history=[("pass",), ("fight",), ("fight",), ("pass",), ("fight",), ("sap",)])]
         for nm in BASE:
             plan += [dict(cell=nm, ng=3, noise=0.002, nspur=40, scale=sc()), dict(cell=nm, ng=2, noise=0.004, nspur=100, scale=sc()),
                      dict(cell=nm, ng=4, nspur=60, scale=sc()),
@@ -742,14 +980,18 @@ def run(tier, replay=None):
     ctx = {"indexing": indexing, "unitcell": unitcell_mod, "columnfile": columnfile, "parameters": parameters, "RecIndexer": RecIndexer,
            "Base": indexing.indexer, "stats": stats}
     chk.rule = ("Indexer.tla explored exhaustively on the ideal and the noisy abstract instance (all hit orders, all ring-pair "
-                "orders; closest-angle and all-candidates hit lists, strict-then-loose passes, rings_to_use, n); real runs: own "
-                "forward model (own B, brute-force hkls) at cell scales 0.25 / 1 / 10 / 250: noise-free grains (1..8) of 17 "
-                "lattices through score_all_pairs (plain, repeated, with n / rmulmax / rings_to_use, cosine_tol < 0, strict-then-"
-                "loose settings), index(), do_index(), indexer_from_colfile (completeness + soundness) and noisy / spurious-peak "
-                "runs over a grid of tolerances, minpks, uniqueness, max_grains (soundness); every run recorded and validated "
-                "event by event by TraceIndexer, every logged score / getind mask / hit list recomputed by the harness; "
-                "non-trivial = at least one grain accepted; distinct = distinct (lattice, scale, route, grains, noise, "
-                "parameters, seed)")
+                "orders; closest-angle and all-candidates hit lists, strict-then-loose passes, rings_to_use, n, up to two "
+                "fight_over_peaks calls anywhere between ring pairs; the stale-buffer variant must violate NoRepeat); real runs: "
+                "own forward model (own B, brute-force hkls) at cell scales 0.25 / 1 / 10 / 250: noise-free grains (1..8) of 17 "
+                "pinned lattices and of cells drawn inside the 7 classes through score_all_pairs (plain, repeated, with n / "
+                "rmulmax / rings_to_use, cosine_tol < 0, strict-then-loose settings), index(), do_index(), indexer_from_colfile"
+                "(_and_ucell), every search mode x every lattice with the minimum just above two reciprocal rows (all pairs and "
+                "drawn rings_to_use), sessions on one indexer (readgvfile, pair loops with saveindexing / saveubis / "
+                "fight_over_peaks between them, find / scorethem by hand, index() then more) (genuineness + completeness + "
+                "soundness) and noisy / spurious-peak runs over a grid of tolerances, minpks, uniqueness, max_grains "
+                "(soundness); every run recorded and validated event by event by TraceIndexer, every logged score / getind mask "
+                "/ hit list / fight_over_peaks outcome recomputed by the harness; non-trivial = at least one grain accepted; "
+                "distinct = distinct (lattice, scale, route, grains, noise, parameters, history, seed)")
     chk.assumptions = ["well separated grains: generated orientations sharing more than min(20%, (1 - uniqueness) / 2) of their "
                        "reflections within 0.05 hkl (0.1 for the hkl_tol 0.1 runs) are redrawn",
                        "'the supplied cell's parameters to within what the tolerance allows': a trial orientation has the cell "
@@ -757,6 +999,17 @@ def run(tier, replay=None):
                        "metric distortion <= (1 + t)^2 - 1, t = c e / (1 - c e), e = 1.05 hkl_tol sqrt(N / lambda_min(sum h h^T)), "
                        "c = condition number of the cell's Cartesian matrix",
                        "same lattice = UBI_a UBI_b^-1 within 0.05 of an integer unimodular matrix",
+                       "genuine on ideal data (no noise, no spurious peaks) = same lattice as one of the generating grains; the "
+                       "low-minimum runs ask for more than 2 * (largest number of a grain's reflections on one reciprocal row) + "
+                       "2 peaks: a matrix built from two peaks of different grains indexes the rows of those two peaks, which "
+                       "the statement allows it to report when the user's minimum is lower than that",
+                       "cells drawn inside a class: edges at least 10% apart, angles at least 6 degrees from 90, and the reduced "
+                       "primitive lattice has exactly the class's symmetries and no further one that keeps the metric within 6%",
+                       "fight_over_peaks: a peak whose error is within 1e-9 (relative) of hkl_tol^2, or of another grain's error, "
+                       "may go either way; saveindexing is judged through the fight_over_peaks it runs and the state it leaves, "
+                       "not through the text it writes",
+                       "completeness with drawn rings_to_use is asserted in the all-candidates mode only (closest-angle mode keeps "
+                       "one partner per peak: a restricted search may legitimately miss a grain)",
                        "completeness is asserted when the pair loop is not cut by n, no spurious peaks are present and ds_tol was "
                        "scaled with the cell (the runs that keep ds_tol = 0.004 on a 10x cell merge rings: soundness only); with "
                        "rings_to_use / rmulmax / forgen only when the permitted rings' own hkl families hold two non-collinear "
@@ -773,12 +1026,17 @@ def run(tier, replay=None):
         chk.notes["replayed"] = replay
     # ---- the specification itself
     if tier == "quick":
-        cfgs = ["Indexer_q", "Indexer_all", "Indexer_2p", "Indexer_r1", "Indexer_cap", "Indexer_noisy"]
+        cfgs = ["Indexer_q", "Indexer_all", "Indexer_2p", "Indexer_r1", "Indexer_cap", "Indexer_noisy", "Indexer_save", "Indexer_save_stale"]
     else:
-        cfgs = ["Indexer_q", "Indexer_all", "Indexer_2p", "Indexer_r1", "Indexer_cap", "Indexer_noisy", "Indexer_t", "Indexer_noisy_t"]
+        cfgs = ["Indexer_q", "Indexer_all", "Indexer_2p", "Indexer_r1", "Indexer_cap", "Indexer_noisy", "Indexer_save", "Indexer_save_stale",
+                "Indexer_t", "Indexer_noisy_t"]
+    # FRESH = FALSE (fight_over_peaks keeping its stored errors): the model must show the duplicate (the invariants see the class)
+    expected_violation = {"Indexer_save_stale": "NoRepeat"}
     need_of = {"Indexer_r1": ("Find", "PopHit", "PopSkip", "PopAccept", "EndScore"),
                "Indexer_2p": ("Find", "PopHit", "PopSkip", "PopLow", "PopAccept", "EndScore", "NextPass"),
                "Indexer_t": ("Find", "PopHit", "PopSkip", "PopLow", "PopAccept", "EndScore", "NextPass"),
+               "Indexer_save": ("Find", "PopHit", "PopSkip", "PopAccept", "EndScore", "NextPass", "Save"),
+               "Indexer_save_stale": ("Find", "PopHit", "PopAccept", "EndScore", "Save"),
                "Indexer_noisy_t": ("Find", "PopHit", "PopSkip", "PopLow", "PopAccept", "PopReject", "EndScore", "NextPass")}
 
     def tlc(c):
@@ -788,7 +1046,10 @@ def run(tier, replay=None):
     for c, res in zip(cfgs, results):
         need = need_of.get(c, ("Find", "PopHit", "PopSkip", "PopLow", "PopAccept", "EndScore") + (("PopReject",) if "noisy" in c else ()))
         chk.add_tlc(c, res, require_cover=need)
-        if res.violated:
+        if c in expected_violation:
+            if expected_violation[c] not in res.violated:
+                raise common.MachineryError("Indexer model %s: expected a violation of %s, got %s" % (c, expected_violation[c], res.violated))
+        elif res.violated:
             raise common.MachineryError("Indexer model violates %s" % res.violated)
     # ---- recorded real runs
     rng = np.random.default_rng(common.seed() + 8)
@@ -824,6 +1085,14 @@ def run(tier, replay=None):
                                           "its peaks and a second, near-identical orientation passes the uniqueness test")
             else:
                 chk.violation(what, dict(m, ubis=pair))
+    for cid, m in metas.items():
+        for (k, what, ubi) in m.pop("_refined_low", []):
+            explained = m["noise"] > 0 and cid in verdicts and verdicts[cid]["ok"]
+            if explained and chk.finding(REF_ID):
+                chk.known_finding(REF_ID, "on noisy data the orientation stored after score_and_refine indexes no more than minpks peaks "
+                                          "although the trial matrix that passed the test indexes more (it is not scored again)")
+            else:
+                chk.violation(what, dict(m, ubi=ubi))
     keys = ("cell", "scale", "route", "ngrains", "noise", "pars", "plan", "reported", "events")
     chk.sample({k: metas["i0"][k] for k in keys} if "i0" in metas and "events" in metas["i0"] else metas.get("i0"))
     last = metas.get("i%d" % (len(plan) - 1), {})
@@ -835,7 +1104,8 @@ def run(tier, replay=None):
     # vacuity: every new family must have been exercised
     for key in ("runs_sap", "runs_index", "runs_do_index", "runs_api", "find_judged", "scores_judged", "getind_judged", "cell_bound_finite",
                 "reorient_branch", "accepted_in_later_pass", "allmode_runs", "pair_loops_with_n", "pair_loops_restricted", "complete_runs",
-                "scale_0.25", "scale_1", "scale_10", "scale_250"):
+                "scale_0.25", "scale_1", "scale_10", "scale_250", "runs_gve", "fights_judged", "fights_repeated_with_grains", "genuine_judged",
+                "lowmin_runs_all", "lowmin_runs_closest") + tuple("lowmin_class_%s_all" % nm for nm in BASE + MORE + CLASSES):
         if not stats[key] and not chk.violations:
             raise common.MachineryError("vacuity: family %s was never exercised" % key)
     chk.exhaustive = False
@@ -880,11 +1150,46 @@ def selftest(chk=None, recs=None):
     bad5 = clone("bad5")
     e = next(e for e in bad5["ev"] if e["t"] == "sap")
     e["pairs"] = e["pairs"][1:]                    # a pair outside the permitted ones was tried
+    # a session with fight_over_peaks: a peak taken from its best owner / released, a wrong peak count, the stale-buffer
+    # outcome (every peak of the grains known at the previous call released) must be rejected
+    def owned(e):
+        return [i for i, f in enumerate(e["fit"]) if f and (i + 1) not in e["amb"]]
+    fbase = next((r for r in recs if sum(1 for e in r["ev"] if e["t"] == "fight" and e.get("fit") and owned(e)) >= 2), None)
+    extra = []
+    if fbase is not None:
+        base, keep = fbase, base
+        fb = clone("fbase")
+        bad6 = clone("bad6")
+        e = [e for e in bad6["ev"] if e["t"] == "fight" and owned(e)][-1]
+        q = owned(e)[0]
+        e["gas"][e["ga"][q]] -= 1
+        e["ga"][q] = -1                            # a peak an accepted grain indexes is left without a grain
+        bad7 = clone("bad7")
+        e = [e for e in bad7["ev"] if e["t"] == "fight" and owned(e)][-1]
+        e["gas"][0] += 1                           # peaks per grain do not add up
+        bad8 = clone("bad8")
+        e = [e for e in bad8["ev"] if e["t"] == "fight" and owned(e)][-1]
+        for q in owned(e):                         # what a buffer kept between calls does: old grains lose every peak
+            e["ga"][q] = -1
+        e["gas"] = [0] * len(e["gas"])
+        extra = [fb, bad6, bad7, bad8]
+        base = keep
+    elif chk is not None and chk.tier != "replay" and not chk.violations:
+        raise common.MachineryError("selftest: no recorded session with two fight_over_peaks calls")
     tmp = common.Check(PROP, "quick")
-    v = validate(tmp, [base, bad1, bad2, bad3, bad4, bad5], "selftest")
+    v = validate(tmp, [base, bad1, bad2, bad3, bad4, bad5] + extra, "selftest")
     if chk is not None:
         chk.states += tmp.states
         chk.transitions += tmp.transitions
         chk.tlc_runs += tmp.tlc_runs
     if not v[base["id"]]["ok"] or any(v[b]["ok"] for b in ("bad1", "bad2", "bad3", "bad4", "bad5")):
         raise common.MachineryError("selftest: TraceIndexer verdicts wrong: %s" % v)
+    if extra and (not v["fbase"]["ok"] or any(v[b]["ok"] for b in ("bad6", "bad7", "bad8"))):
+        raise common.MachineryError("selftest: TraceIndexer verdicts on fight_over_peaks wrong: %s" % {k: v[k] for k in ("fbase", "bad6", "bad7", "bad8")})
+    # the harness's own competing-owner table: best error wins, the earlier grain on an exact tie, none outside the tolerance
+    u1 = np.eye(3)
+    u2 = np.array([[1.0, 0.002, 0], [0, 1, 0], [0, 0, 1]])
+    gq = np.array([[1.0, 1.0, 0.0], [1.0, 0.0, 0.0], [0.5, 0.5, 0.5]])
+    fit, amb, win = L.fight_table([u2, u1, u1], gq, 0.01)
+    if [int(x) for x in win] != [1, 0, -1] or fit[0] != [[1, 1], [2, 0], [3, 0]] or fit[2] != []:
+        raise common.MachineryError("selftest: fight_table %s %s %s" % (fit, amb, win))
